@@ -6,7 +6,7 @@ META = {
     "level": "model_checking",
     "text": "MutableWorld.tla (abstract map ID->feature; AddFeature/AddTag/RemoveTag) is model-checked exhaustively on "
             "two scenarios; every exported transition is executed on real MutableOverlayWorlds (over a basic world, over a "
-            "BasicMutableWorld, over an empty base) through its BFS-shortest prefix, plus seeded random walks; after every "
+            "BasicMutableWorld, over an empty base) through its BFS-shortest prefix, plus seeded random walks and, per feature, all 3-step histories of operations on it, on what it refers to and on what refers to it; after every "
             "step lookup, tags, existence, tag search and enumeration must equal the specification's observation.",
     "note": "Small scope (<= 8 features, 3 tag keys, 2 values). Tags compared as maps (order unspecified in mutable worlds). "
             "The `all` query is compared modulo points without searchable tags. Trusted: TLC, harness/obs, vh-world.",
@@ -20,4 +20,5 @@ def run(ctx):
         sections=["result-overreject", "result-panic", "lookup", "each", "search", "problems", "hang"],
         meta_rule="every transition of the TLC state graph of MutableWorld scenarios 1-2 executed on 3 overlay world "
                   "constructions via its shortest prefix + random walks; distinct = distinct (scenario, impl, op path)",
-        assumptions=["tag values are strings", "RemoveTag on a missing feature is not generated (unspecified)"])
+        assumptions=["tag values are strings", "RemoveTag on a missing feature is not generated (unspecified)"],
+        focused=(250, 4000))
